@@ -241,23 +241,23 @@ theorem C05_basetype_complete (isBase : Name → Bool) (empty : Name) (T : Types
 /-! ### DEFVAL forms -/
 
 /-- **C05_defval_number**: a decimal DEFVAL is emitted as that number whatever the base type. -/
-theorem C05_defval_number (i o b : Bool) (e : Option (List (Name × Int))) (k : Name → Bool) (v : Int) :
-    genDefVal i o b e k (.num v) = .decimal v := rfl
+theorem C05_defval_number (i o b t : Bool) (e : Option (List (Name × Int))) (k : Name → Bool) (v : Int) :
+    genDefVal i o b t e k (.num v) = .decimal v := rfl
 
 /-- **C05_defval_hex**: a hex literal on an integer base is the integer it denotes; on any other base its
 digits verbatim. -/
-theorem C05_defval_hex (o b : Bool) (e : Option (List (Name × Int))) (k : Name → Bool) (n : Nat) :
-    genDefVal true o b e k (.hex (render 16 n)) = .hexOfInt n ∧
-    genDefVal false o b e k (.hex (render 16 n)) = .hexDigits (render 16 n) := by
+theorem C05_defval_hex (o b t : Bool) (e : Option (List (Name × Int))) (k : Name → Bool) (n : Nat) :
+    genDefVal true o b t e k (.hex (render 16 n)) = .hexOfInt n ∧
+    genDefVal false o b t e k (.hex (render 16 n)) = .hexDigits (render 16 n) := by
   have h := parse_render 16 (by omega) (by omega) n
   have hne := render_ne_nil 16 n
   cases hr : render 16 n with
   | nil => exact absurd hr hne
   | cons c cs => simp [genDefVal, ← hr, h]
 
-theorem C05_defval_bin (o b : Bool) (e : Option (List (Name × Int))) (k : Name → Bool) (n : Nat) :
-    genDefVal true o b e k (.bin (render 2 n)) = .binOfInt n ∧
-    genDefVal false o b e k (.bin (render 2 n)) = .hexOfBin (some (((render 2 n).length + 3) / 4, n)) := by
+theorem C05_defval_bin (o b t : Bool) (e : Option (List (Name × Int))) (k : Name → Bool) (n : Nat) :
+    genDefVal true o b t e k (.bin (render 2 n)) = .binOfInt n ∧
+    genDefVal false o b t e k (.bin (render 2 n)) = .hexOfBin (some (((render 2 n).length + 3) / 4, n)) := by
   have h := parse_render 2 (by omega) (by omega) n
   have hne := render_ne_nil 2 n
   cases hr : render 2 n with
@@ -266,8 +266,8 @@ theorem C05_defval_bin (o b : Bool) (e : Option (List (Name × Int))) (k : Name 
 
 /-- **C05_defval_enum**: an enumeration label is emitted iff it is a member of the enumeration resolved
 through the chain of derived types. -/
-theorem C05_defval_enum (l : List (Name × Int)) (k : Name → Bool) (n : Name) :
-    genDefVal true false false (some l) k (.label n) = .enum n ↔ ∃ v, (n, v) ∈ l := by
+theorem C05_defval_enum (t : Bool) (l : List (Name × Int)) (k : Name → Bool) (n : Name) :
+    genDefVal true false false t (some l) k (.label n) = .enum n ↔ ∃ v, (n, v) ∈ l := by
   simp only [genDefVal, Bool.false_and, Bool.false_eq_true, if_false, if_true]
   constructor
   · intro h
@@ -280,21 +280,24 @@ theorem C05_defval_enum (l : List (Name × Int)) (k : Name → Bool) (n : Name) 
     have : l.any (·.1 == n) = true := List.any_eq_true.mpr ⟨(n, v), hv, by simp⟩
     simp [this]
 
-/-- **C05_defval_string_partial**: a non-empty string DEFVAL is emitted verbatim; the empty string is
-dropped for every base type (finding F14: the code compares a tuple with a string). -/
-theorem C05_defval_string_partial (i o b : Bool) (e : Option (List (Name × Int))) (k : Name → Bool) (s : List Char)
-    (hs : s ≠ []) : genDefVal i o b e k (.str s) = .string s := by
+/-- **C05_defval_string**: a non-empty string DEFVAL is emitted verbatim on every base type; the empty string is kept on
+OCTET STRING and dropped on every other base (the "common mistake in MIBs" the code means to tolerate). -/
+theorem C05_defval_string (i o b t : Bool) (e : Option (List (Name × Int))) (k : Name → Bool) (s : List Char)
+    (hs : s ≠ [] ∨ t = true) : genDefVal i o b t e k (.str s) = .string s := by
   cases s with
-  | nil => exact absurd rfl hs
+  | nil =>
+    rcases hs with hs | hs
+    · exact absurd rfl hs
+    · subst hs; simp [genDefVal]
   | cons c cs => simp [genDefVal]
 
-theorem C05_defval_empty_string_witness (i o b : Bool) (e : Option (List (Name × Int))) (k : Name → Bool) :
-    genDefVal i o b e k (.str []) = .nothing := by simp [genDefVal]
+theorem C05_defval_empty_string_dropped (i o b : Bool) (e : Option (List (Name × Int))) (k : Name → Bool) :
+    genDefVal i o b false e k (.str []) = .nothing := by simp [genDefVal]
 
 /-- **C05_defval_oid**: a label on an OBJECT IDENTIFIER base that names a known symbol is resolved to
 that symbol's OID. -/
-theorem C05_defval_oid (i b : Bool) (e : Option (List (Name × Int))) (k : Name → Bool) (n : Name) (hk : k n = true) :
-    genDefVal i true b e k (.label n) = .oidOf n := by simp [genDefVal, hk]
+theorem C05_defval_oid (i b t : Bool) (e : Option (List (Name × Int))) (k : Name → Bool) (n : Name) (hk : k n = true) :
+    genDefVal i true b t e k (.label n) = .oidOf n := by simp [genDefVal, hk]
 
 /-! ### non-vacuity -/
 example : render 16 255 = ['f', 'f'] ∧ render 2 5 = ['1', '0', '1'] ∧ render 16 0 = ['0'] := by decide
